@@ -40,6 +40,7 @@ func main() {
 }
 
 func cmdDev(args []string) {
+	CallCovers = true
 	fs := flag.NewFlagSet("dev", flag.ExitOnError)
 	f := fs.String("f", "", "function key (pkgpath::key or unique suffix)")
 	timeout := fs.Int("t", 10, "solver timeout (s)")
